@@ -73,6 +73,40 @@ def check_set_tagged(args):
     extra = set(b.__arguments__) - keys
     if extra:
       bad(f'new arguments appeared: {sorted(map(repr, extra))}')
+  # the same with a new value that is == to (but not identical with) a value already stored in
+  # one of the tagged arguments: "holds v" is about the object handed in, not about equality
+  root2 = factory()
+  hits = []
+  for b in reachable_buildables(root2):
+    for k, ts in b.__argument_tags__.items():
+      if any(issubclass(t, tag) for t in ts) and k in b.__arguments__:
+        hits.append((b, k))
+  for b0, k0 in hits[:2]:
+    v0 = b0.__arguments__[k0]
+    if isinstance(v0, bool) or v0 is None or isinstance(v0, str):
+      continue
+    eqv = float(v0) if isinstance(v0, int) else copy.deepcopy(v0)
+    if eqv is v0 or not (eqv == v0):
+      continue
+    root3 = factory()
+    try:
+      if api == 'set_tagged':
+        fdl.set_tagged(root3, tag=tag, value=eqv)
+      else:
+        selectors.select(root3, tag=tag).replace(eqv, deepcopy=False)
+    except Exception as e:   # pylint: disable=broad-except
+      bad(f'{api} with an equal-but-distinct value raised {type(e).__name__}')
+      continue
+    for b in reachable_buildables(root3):
+      if b is eqv or (isinstance(eqv, config_lib.Buildable) and b in reachable_buildables(eqv)):
+        continue
+      for k, ts in b.__argument_tags__.items():
+        if any(issubclass(t, tag) for t in ts):
+          v1 = b.__arguments__.get(k, fdl.NO_VALUE)
+          if v1 is not eqv:
+            bad(f'{api}(value={eqv!r}): argument {k!r} tagged {sorted(map(str, ts))} holds {v1!r} '
+                f'(type {type(v1).__name__}), not the value passed in (equal values are not the same '
+                f'object / type)')
   return 1, 1, viols, ([dict(config=name, tag=tag.__name__, api=api)] if name == 'tags' and tag_i == 0 else [])
 
 
